@@ -140,6 +140,11 @@ type reqSpec struct {
 	// OnFirstByte is called when the first response body byte of a 2xx answer
 	// is about to be written.
 	OnFirstByte func(status int)
+	// Conn, when set, is the TLS state of the connection the request arrives
+	// on: requests on one kept-alive connection share it (net/http hands every
+	// request of a connection the same *tls.ConnectionState, certificates
+	// slice included).
+	Conn *tls.ConnectionState
 	// AcceptEncoding, when set, is what the caller says it accepts; a
 	// response that comes back encoded is decoded (gzip by the standard
 	// library, the framed snappy format by the snappy package) and a body
@@ -236,7 +241,9 @@ func serve(h http.Handler, rs reqSpec) *respRec {
 	}
 	req.RemoteAddr = rs.Peer
 	req.TLS = nil
-	if rs.TLS != nil {
+	if rs.Conn != nil {
+		req.TLS = rs.Conn
+	} else if rs.TLS != nil {
 		req.TLS = &tls.ConnectionState{HandshakeComplete: true, PeerCertificates: []*x509.Certificate{rs.TLS.Cert}}
 		for _, x := range rs.TLSExtra {
 			req.TLS.PeerCertificates = append(req.TLS.PeerCertificates, x.Cert)
